@@ -265,6 +265,8 @@ def run(ctx: Ctx):
         raise MachineryError('negative control failed: a resuming waypoint search should violate HistoryIndependent')
     ctx.extra['negative_control'] = 'GroundTrackHist with Design=resume violates HistoryIndependent (location(3) then an earlier-leg query) as expected'
     hs = tlc.check(ctx, 'geo/GroundTrackHist', 'geo/Gen_GroundTrackHist.cfg', workers=8)['emitted']
+    # a refused request repeated (the refusal must not leave anything behind that answers the repeat)
+    hs += tlc.check(ctx, 'geo/GroundTrackHist', 'geo/Gen_GroundTrackRepeat.cfg', workers=8, sub=None if ctx.quick else {'D = 3': 'D = 4'})['emitted']
     nw = 150 if ctx.quick else 3000
     hs += tlc.check(ctx, 'geo/GroundTrackHist', 'geo/Sim_GroundTrackHist.cfg', workers=1, simulate=f'num={nw}', depth=12, seed=ctx.seed)['emitted']
     hjobs = [(h, si) for i, h in enumerate(hs) for si in ([i % len(STARTS)] if ctx.quick else range(len(STARTS)))]
